@@ -141,7 +141,7 @@ func c06Run(t *vk.T, name string, n, i int, env vk.Env) {
 		for pos := 0; pos < n; pos++ {
 			honest := n - 1
 			for mask := 1; mask < (1<<uint(honest))-1; mask++ {
-				for _, v := range []string{"twins", "twins-round-k-only", "wire-flip"} {
+				for _, v := range []string{"twins", "twins-round-k-only", "wire-flip", "twins-replay"} {
 					plans = append(plans, plan{k, pos, mask, v})
 				}
 			}
@@ -281,6 +281,44 @@ func c06One(t *vk.T, p *c06Proto, k, pos, mask int, variant string, sample bool)
 				} else if d.Emitter == e2 {
 					return nil
 				}
+			case "twins-replay":
+				// round k: everybody gets twin 1's payload; G2 additionally gets twin 2's right behind it;
+				// afterwards twin 1 serves G1 and twin 2 serves G2, presenting twin 1's echo hash
+				switch {
+				case d.Round < k:
+					if d.Emitter == e2 {
+						return nil
+					}
+				case d.Round == k:
+					if d.Emitter == e2 {
+						return nil // twin 2's round-k messages are injected right behind twin 1's (below)
+					}
+					if toG2 {
+						out := []*sim.Delivery{d}
+						for _, x := range n.Pending {
+							if x.Emitter == e2 && x.Target == tgt && x.Round == k && x.Bcast == d.Bcast {
+								c := *x
+								c.Tag = "second-payload"
+								out = append(out, &c)
+							}
+						}
+						return out
+					}
+				default:
+					if (d.Emitter == e1) == toG2 {
+						return nil
+					}
+					if d.Emitter == e2 {
+						m := sim.Decode(d.Bytes)
+						if h, ok := ownHash[e1][d.Round]; ok && m.BroadcastVerification != nil {
+							m.BroadcastVerification = h
+							b, _ := m.MarshalBinary()
+							c := *d
+							c.Bytes = b
+							return []*sim.Delivery{&c}
+						}
+					}
+				}
 			case "wire-flip":
 				if d.Round == k && d.Bcast && toG2 {
 					m := sim.Decode(d.Bytes)
@@ -315,6 +353,13 @@ func c06One(t *vk.T, p *c06Proto, k, pos, mask int, variant string, sample bool)
 	}
 	// hold deliveries to a twin whose view hash for that round is not known yet
 	n.Sched = func(nn *sim.Net) int {
+		if variant == "twins-replay" {
+			for idx, d := range nn.Pending {
+				if d.Emitter == e1 && d.Round == k {
+					return idx
+				}
+			}
+		}
 		for idx, d := range nn.Pending {
 			if (d.Target == e1 || (e2 != nil && d.Target == e2)) && d.Round >= 3 {
 				if _, ok := ownHash[d.Target][d.Round]; !ok && emittedRound[d.Target] < d.Round {
@@ -365,6 +410,23 @@ func c06One(t *vk.T, p *c06Proto, k, pos, mask int, variant string, sample bool)
 			}
 		}
 	}
+	// honest finishers must also agree on the result itself
+	var firstRes []byte
+	var firstID party.ID
+	for _, o := range outs {
+		if o.ID == E || o.State != "done" {
+			continue
+		}
+		b := c06Canon(o.Value)
+		if b == nil {
+			continue
+		}
+		if firstRes == nil {
+			firstRes, firstID = b, o.ID
+		} else if string(b) != string(firstRes) {
+			t.Violation(fmt.Sprintf("%s|split-results|k=%d|%s", p.name, k, variant), "%s: honest parties %q and %q both completed with different results", tag, firstID, o.ID)
+		}
+	}
 	if sample {
 		t.Sample(map[string]any{"protocol": p.name, "n": len(ids), "round": k, "equivocator": string(E), "G2": fmt.Sprint(g2), "variant": variant, "outcomes": fx.Describe(outs)})
 	}
@@ -380,4 +442,22 @@ func finalRound(name string) int {
 		return 5
 	}
 	return 8
+}
+
+// c06Canon returns the part of a result on which all honest finishers must agree (nil if there is none).
+func c06Canon(v interface{}) []byte {
+	switch c := v.(type) {
+	case *frost.Config:
+		s := fx.ShareOfFrost(c)
+		return append(s.GroupKey.Compress(), s.ChainKey...)
+	case *frost.TaprootConfig:
+		s := fx.ShareOfTaproot(c)
+		return append(s.GroupKey.Compress(), s.ChainKey...)
+	case *cmp.Config:
+		s := fx.ShareOfCMP(c)
+		return append(s.GroupKey.Compress(), s.ChainKey...)
+	case *detproto.Result:
+		return nil
+	}
+	return fx.SigBytes(v)
 }
